@@ -74,7 +74,7 @@ func faultDecoders(o *cached) []decoder {
 
 func famTruncation(t *lc) {
 	n := 0
-	for _, x := range t.values() {
+	for _, x := range t.faultValues() {
 		for _, d := range faultDecoders(x.o) {
 			n++
 			truncationValue(x, d)
@@ -405,7 +405,7 @@ func tooDangerous(dz []danger, data []byte, lo, hi int) bool {
 
 func famCorruption(t *lc) {
 	n := 0
-	for _, x := range t.values() {
+	for _, x := range t.faultValues() {
 		for _, d := range faultDecoders(x.o) {
 			if corruptionValue(x, d) {
 				n++
@@ -534,7 +534,7 @@ func famWriterFailure(t *lc) {
 	wk := t.c.Choose(len(failingWriters), "failing-writer")
 	t.c.Cover("failing-writer", failingWriters[wk])
 	n := 0
-	for _, x := range t.values() {
+	for _, x := range t.faultValues() {
 		if x.o.a.wt == nil || !x.o.wbinOK {
 			continue
 		}
